@@ -13,7 +13,7 @@ use iroh_docs::{
     engine::verif::{LiveActor, SyncReason},
     net::{AbortReason, AcceptError, AcceptOutcome, ConnectError, SyncFinished},
     store::Store,
-    AuthorHeads, Capability, NamespaceId, SyncOutcome,
+    AuthorHeads, Capability, ContentStatus, NamespaceId, SyncOutcome,
 };
 use iroh_gossip::net::Gossip;
 use serde_json::{json, Value};
@@ -99,6 +99,12 @@ pub struct Pair {
     pub nodes: Vec<NodeCtx>, // index 0 = node 1 (smaller id), index 1 = node 2 (greater id)
     dials: Vec<DialRec>,
     ns: NamespaceId,
+    /// per node: the hash of the content download queued by the last QueueDownload step
+    queued: [Option<iroh_blobs::Hash>; 2],
+    /// per node: the document was put into the sync set by the real start_sync handler (so leave has a replica to close)
+    joined: [bool; 2],
+    nq: u64,
+    ns_secret: iroh_docs::NamespaceSecret,
 }
 
 impl Pair {
@@ -111,7 +117,12 @@ impl Pair {
         for n in syncing {
             nodes[n - 1].actor.verif_set_syncing(w.nsid());
         }
-        Ok(Pair { nodes, dials: vec![], ns: w.nsid() })
+        // each node remembers the other one as a useful peer of the document (what a finished session leaves behind)
+        for n in 0..2 {
+            let other = *nodes[1 - n].id.as_bytes();
+            nodes[n].sync.register_useful_peer(w.nsid(), other).await?;
+        }
+        Ok(Pair { nodes, dials: vec![], ns: w.nsid(), queued: [None, None], joined: [false, false], nq: 0, ns_secret: w.ns.clone() })
     }
 
     fn snapshot(&self) -> (Value, Value) {
@@ -202,6 +213,62 @@ impl Pair {
                 self.nodes[m - 1].actor.verif_accept_finished(res).await;
                 started = self.collect(m);
             }
+            // the sync set changes through the real handlers of the actor loop
+            "Join" => {
+                let n = a["n"].as_u64().unwrap() as usize;
+                // "dial": the real start_sync handler - the other node is a remembered peer of the document (registered when
+                // the pair was set up), so it is dialled at once; "": a document without remembered peers (sync set only)
+                if a["res"] == "dial" {
+                    let r = self.nodes[n - 1].actor.verif_start_sync(ns).await;
+                    self.joined[n - 1] = r.is_ok();
+                    ev["obs"] = json!(if r.is_ok() { "ok" } else { "err" });
+                } else {
+                    self.nodes[n - 1].actor.verif_set_syncing(ns);
+                }
+                started = self.collect(n);
+            }
+            "Leave" => {
+                let n = a["n"].as_u64().unwrap() as usize;
+                let r = self.nodes[n - 1].actor.verif_leave(ns).await;
+                self.joined[n - 1] = false;
+                ev["obs"] = json!(if r.is_ok() { "ok" } else { "err" });
+                started = self.collect(n);
+            }
+            // the download bookkeeping beside the coordination: a remote entry whose content is wanted and available at
+            // the sender (on_replica_event -> start_download), and later the report of the download task
+            "QueueDownload" => {
+                let n = a["n"].as_u64().unwrap() as usize;
+                let other = self.nodes[2 - n].id;
+                self.nq += 1;
+                let content = format!("content-{}-{}", n, self.nq);
+                let hash = iroh_blobs::Hash::new(content.as_bytes());
+                let author = iroh_docs::Author::from_bytes(&[(self.nq % 200) as u8 + 1; 32]);
+                let entry = iroh_docs::sync::Entry::new(
+                    iroh_docs::sync::RecordIdentifier::new(ns, author.id(), b"dl"),
+                    iroh_docs::sync::Record::new(hash, content.len() as u64, 1 + self.nq),
+                );
+                let se = iroh_docs::sync::SignedEntry::from_entry(entry, &self.ns_secret, &author);
+                let r = self.nodes[n - 1]
+                    .actor
+                    .verif_replica_event(iroh_docs::Event::RemoteInsert {
+                        namespace: ns,
+                        entry: se,
+                        from: *other.as_bytes(),
+                        should_download: true,
+                        remote_content_status: ContentStatus::Complete,
+                    })
+                    .await;
+                self.queued[n - 1] = Some(hash);
+                ev["obs"] = json!(if r.is_ok() { "ok" } else { "err" });
+                started = self.collect(n);
+            }
+            "DownloadReady" => {
+                let n = a["n"].as_u64().unwrap() as usize;
+                if let Some(hash) = self.queued[n - 1].take() {
+                    self.nodes[n - 1].actor.verif_download_ready(ns, hash, a["res"] == "ok").await;
+                }
+                started = self.collect(n);
+            }
             // pure environment steps (network, session tasks): nothing to execute on the nodes
             "LoseRequest" | "DeliverAbort" | "EndDialer" | "EndAcceptor" => {}
             other => panic!("unknown livesync action {other}"),
@@ -209,11 +276,33 @@ impl Pair {
         let (slots, rs) = self.snapshot();
         ev["st"] = slots;
         ev["resync"] = rs;
+        ev["insync"] = json!([self.nodes[0].actor.verif_is_syncing(&ns), self.nodes[1].actor.verif_is_syncing(&ns)]);
         ev["started"] = Value::Array(started);
         if ev.get("obs").is_none() {
             ev["obs"] = json!("");
         }
         ev
+    }
+
+    /// Between schedules: every node leaves (through the real handler if it joined through it), queued downloads
+    /// are reported, and the nodes of `syncing` join again through the real start_sync handler.
+    pub async fn reset(&mut self, w: &World, syncing: &[usize]) {
+        let ns = w.nsid();
+        for n in 1..=2usize {
+            if let Some(hash) = self.queued[n - 1].take() {
+                self.nodes[n - 1].actor.verif_download_ready(ns, hash, false).await;
+            }
+            if self.joined[n - 1] {
+                let _ = self.nodes[n - 1].actor.verif_leave(ns).await;
+                self.joined[n - 1] = false;
+            }
+            self.nodes[n - 1].actor.verif_unset_syncing(&ns);
+            self.nodes[n - 1].actor.verif_take_dials();
+            if syncing.contains(&n) {
+                // (not through start_sync: it would dial the peers remembered from earlier schedules)
+                self.nodes[n - 1].actor.verif_set_syncing(ns);
+            }
+        }
     }
 
     pub async fn shutdown(self) {
@@ -266,14 +355,7 @@ pub fn run(w: Arc<World>, seed: u64, schedules: Vec<Value>, trace: &mut Trace, s
         trace.emit(json!({"ev":"Reset","run":i,"seed":seed,"syncing":syncing,"hist":acts,"ops":[]}));
         sum.add("histories", 1);
         pair.dials.clear();
-        for n in 1..=2usize {
-            let ns = w.nsid();
-            pair.nodes[n - 1].actor.verif_unset_syncing(&ns);
-            pair.nodes[n - 1].actor.verif_take_dials();
-            if syncing.contains(&n) {
-                pair.nodes[n - 1].actor.verif_set_syncing(ns);
-            }
-        }
+        rt.block_on(pair.reset(&w, &syncing));
         let evs: Vec<Value> = rt.block_on(async {
             let mut evs = vec![];
             for a in &acts {
